@@ -21,8 +21,10 @@ Step   == l' = l + 1 /\ UNCHANGED tid
 Silent == UNCHANGED <<tid, l>>
 
 TInit == /\ tid \in 1..NT /\ l = 1
-         /\ InitWith([p \in Pipes |-> Batch[tid].skp[p]], [p \in Pipes |-> Batch[tid].reg[p]],
-                     [p \in Pipes |-> Batch[tid].kk[p]], [p \in Pipes |-> Batch[tid].pc0[p]])
+         /\ LET B == Batch[tid]
+                D == 1..B.np IN
+              InitWith(B.np, B.tt, [p \in D |-> B.skp[p]], [p \in D |-> B.reg[p]],
+                       [p \in D |-> B.kk[p]], [p \in D |-> B.pc0[p]])
 
 TRun == /\ Is("run") /\ Step
         /\ IF Cur.ok THEN Run ELSE RunRejected
